@@ -1948,7 +1948,23 @@ def _cls_merge_skip_container(case):
             info.get("offender", {}).get("cls") == "ContainerSymbol")
 
 
+def _cls_merge_skip_import_atomic(case):
+    """Same root cause as merge_skip_container, other symptom: the
+    container pre-pass of merge() also processes *skipped* containers and
+    skipped imported symbols of the other table; when the receiving
+    table's clashing symbol cannot be renamed it raises SymbolError after
+    the container has already been added (non-atomic rejection)."""
+    info = case.get("info", {})
+    if case.get("bucket") != "atomic:merge" or info.get("op") != "merge" \
+            or info.get("raised") != "SymbolError":
+        return False
+    return any(d.get("cls") == "ContainerSymbol" or
+               d.get("iface") == "ImportInterface"
+               for d in info.get("skip", []))
+
+
 CLASSIFIERS = {
     "swap_props_uppercase": _cls_swap_props_uppercase,
     "merge_skip_container": _cls_merge_skip_container,
+    "merge_skip_import_atomic": _cls_merge_skip_import_atomic,
 }
